@@ -1,7 +1,7 @@
 (* C10 — Compilation preserves the structure of the hierarchy.
    For an arbitrary carrier D (so for the compile model and for the denotation alike). *)
 From Coq Require Import List String QArith.
-From Bq Require Import Expr RepModel Routine Compare Compile CompileTop StructureFacts.
+From Bq Require Import Expr RepModel Routine Compare Compile CompileTop StructureFacts Preprocess SkeletonFacts.
 Import ListNotations.
 Open Scope string_scope.
 
@@ -25,3 +25,56 @@ Example C10_nonvacuous :
             map (@ct_name expr) (ct_children t) = ["a"] /\
             names_types (ct_resources t) = [("T", RAdditive)].
 Proof. eexists. repeat split; vm_compute; reflexivity. Qed.
+
+(* ---------- the whole pipeline, the whole tree ---------- *)
+
+(* preprocessing (whatever the generated list of stages is): at every node of the hierarchy the name, type, connections
+   and repetition are unchanged, the ports are the same ports (names and directions, up to order), every source
+   resource is still there unchanged, any new resource is additive or multiplicative under a name the node did not
+   define, input parameters and constraints are only appended to, and the children are the same children in the same
+   order *)
+Theorem C10_preprocessing_keeps_the_skeleton : forall r ir, preprocess r = Ok ir -> skel r ir.
+Proof. exact preprocess_skel. Qed.
+Print Assumptions C10_preprocessing_keeps_the_skeleton.
+
+(* compilation proper, at every depth and for any carrier: each node of the result is the image of the routine it was
+   compiled from (C10_structure at that node), and its children are the images of that routine's children *)
+Theorem C10_every_node_has_the_shape_of_its_source :
+  forall (D : Type) (ev : list (string * D) -> expr -> result D) (statusD : D -> D -> cstatus) (fvD : D -> list string)
+         (fuel : nat) (r : routine) (inputs : list (string * D)) (t : ctree D),
+    go ev statusD fvD fuel r inputs = Ok t -> shape_ok D r t.
+Proof. exact go_shape. Qed.
+Print Assumptions C10_every_node_has_the_shape_of_its_source.
+
+(* exactly the routines of the source: with distinct child names at every node, the compiled tree has as many nodes *)
+Theorem C10_same_number_of_routines :
+  forall (D : Type) (ev : list (string * D) -> expr -> result D) (statusD : D -> D -> cstatus) (fvD : D -> list string)
+         (fuel : nat) (r : routine) (inputs : list (string * D)) (t : ctree D),
+    names_distinct r -> go ev statusD fvD fuel r inputs = Ok t -> nodes_t D t = nodes_r r.
+Proof. exact go_nodes. Qed.
+Print Assumptions C10_same_number_of_routines.
+
+Theorem C10_whole_pipeline : forall r t,
+  compile_routine r = Ok t -> exists ir, preprocess r = Ok ir /\ skel r ir /\ shape_ok expr ir t.
+Proof. exact compile_routine_whole_tree. Qed.
+Print Assumptions C10_whole_pipeline.
+
+(* the additions the property allows, at the root: every source resource is there with its name and type, and anything
+   else is additive or multiplicative under a name the source did not define *)
+Theorem C10_root_resources : forall r t,
+  compile_routine r = Ok t -> rrep r = None ->
+  (forall x, In x (rresources r) -> In (r_name x, r_type x) (names_types (ct_resources t))) /\
+  (forall nt, In nt (names_types (ct_resources t)) ->
+              In nt (map res_sig (rresources r)) \/
+              ((snd nt = RAdditive \/ snd nt = RMultiplicative) /\ ~ In (fst nt) (map r_name (rresources r)))).
+Proof. exact compile_routine_root_resources. Qed.
+Print Assumptions C10_root_resources.
+
+Example C10_whole_tree_nonvacuous :
+  exists ir t, preprocess CompileFacts.C01_example = Ok ir /\ compile_routine CompileFacts.C01_example = Ok t /\
+               nodes_r CompileFacts.C01_example = 2%nat /\ nodes_t expr t = 2%nat /\
+               map r_name (rresources CompileFacts.C01_example) = [] /\ map r_name (rresources ir) = ["T"].
+Proof. eexists. eexists. repeat split; vm_compute; reflexivity. Qed.
+
+Example C10_names_distinct_nonvacuous : names_distinct CompileFacts.C01_example.
+Proof. cbn. repeat (split || constructor); intro H; destruct H. Qed.
